@@ -2,6 +2,7 @@
 
 Monitors:
   coef_finite      ETDRK1-4 coefficients and exp terms finite for Re(z) <= 0 up to |z| = 1e15 and at z = 0, float32 and float64 sessions
+  session_precision  real symbols 0 .. -1e15 (incl. exact landmarks): coefficients are exact to the SESSION's rounding (reuses the C02 phi-function oracle)
   result_dtype     every class x order: state results carry the session's default float dtype, spectra the matching complex dtype
   cross_precision  the same step in a float32 session vs float64 (same process, jax.enable_x64 context): difference <= c * eps32 * (measured amplification of the
                    step map + 1 + max|Im z|), the amplification being measured in float64 on the model side
@@ -16,7 +17,7 @@ from rv.props.c06 import make_states
 PROP = "C19"
 RULE = ("cases = ETDRK order x z family (down to -1e15, complex with Re z <= 0, exactly 0) x session; every exported class x D x order 0-4 x session; stiff configurations; distinct = "
         "(monitor, class | family, D, order, session); non-trivial = non-zero state / |z| range reaching >= 1e6")
-REQUIRED = {"coef_finite": {"quick": 60, "thorough": 250}, "result_dtype": {"quick": 150, "thorough": 600}, "cross_precision": {"quick": 70, "thorough": 300},
+REQUIRED = {"coef_finite": {"quick": 60, "thorough": 250}, "session_precision": {"quick": 100, "thorough": 300}, "result_dtype": {"quick": 150, "thorough": 600}, "cross_precision": {"quick": 70, "thorough": 300},
             "zero_state": {"quick": 70, "thorough": 300}, "stiff_finite": {"quick": 20, "thorough": 120}}
 ASSUMPTIONS = ["the float64 reference of the cross-precision monitor is computed in the same process under jax.enable_x64(True)",
                "'never silently falls back to another precision' is decided jointly with the 1e-11-level float64 comparisons of the other monitors (a float32 detour inside a float64 session would show there)"]
@@ -39,6 +40,9 @@ def zfam(rng, fam, n):
         return 10.0 ** rng.uniform(0, 15, size=n) * np.exp(1j * rng.uniform(np.pi / 2, 3 * np.pi / 2, size=n))
     if fam == "zeros":
         return np.zeros(n, complex)
+    if fam == "landmarks":      # exactly representable negative reals: -1 (where an un-rotated contour of radius 1 would have a node), powers of two and ten, near misses
+        base = np.concatenate([[-1.0, -0.5, -2.0, -0.25, -4.0, -1.0 - 2.0 ** -20, -1.0 + 2.0 ** -20, -0.999, -1.001], -(2.0 ** np.arange(3, 50, 2)), -(10.0 ** np.arange(1, 16)), -np.linspace(12.0, 40.0, 15)])
+        return np.tile(base, int(np.ceil(n / len(base))))[:n].astype(complex)
     if fam == "contour_nodes":      # |z| = r on the nodes of the documented contour (left half plane): see known finding F9
         from rv.refmodel import phi as P
         nodes = -P.roots(16)
@@ -50,7 +54,7 @@ def zfam(rng, fam, n):
 def cases(tier, seed):
     out = []
     for order in (1, 2, 3, 4):
-        for fam in ("real_stiff", "real_small", "imag", "lhp_stiff", "zeros", "contour_nodes"):
+        for fam in ("real_stiff", "real_small", "imag", "lhp_stiff", "zeros", "landmarks", "contour_nodes"):
             for x64 in (True, False):
                 for rep in range(1 if tier == "quick" else 3):
                     out.append(dict(kind="coef", order=order, fam=fam, x64=x64, rs=[seed, env.crc(fam), order, int(x64), rep], cost=1))
@@ -89,6 +93,11 @@ def run_coef(case, bus, ex):
                     bad.append((nm, "dtype " + str(a.dtype)))
         bus.judge("coef_finite", float(len(bad)), 0.5, (order, fam, "x64" if x64 else "f32", dt == 1.0), sample=dict(order=order, family=fam, dt=dt, zmax=float(np.max(np.abs(z)))),
                   witness=dict(order=order, family=fam, dt=dt, bad=[(a, str(b)) for a, b in bad], on_contour_node=(fam == "contour_nodes")), nontrivial=float(np.max(np.abs(z))) >= 1e6 or fam in ("zeros", "real_small"))
+        if fam in ("real_stiff", "landmarks", "real_small"):
+            # precision-faithfulness: in either session the coefficients carry the session's precision (a hard-wired float32 shortcut in an x64 session would show here)
+            from rv.props import c02
+            c02.judge_coefs(bus, "session_precision", integ, order, (Lop.astype(cd) * cd(dt)).astype(cd).astype(complex), dt, float(np.finfo(np.float64 if x64 else np.float32).eps),
+                            (order, fam, "x64" if x64 else "f32"), dict(order=order, family=fam, dt=dt, session="x64" if x64 else "f32"))
         # and a step through it stays finite
         u_hat = jnp.asarray((rng.normal(size=(1, n)) + 1j * rng.normal(size=(1, n))).astype(cd))
         o = np.asarray(integ.step_fourier(u_hat))
